@@ -16,6 +16,8 @@ pub enum SchemaVia {
 	PlainText,
 	FancyText,
 	Builder,
+	/// an editable schema that already answered a fingerprint query for something else, then had its nodes replaced in place
+	EditedInPlace,
 }
 
 /// Build the crate's Schema for a reference schema; returns the schema and the text used (if any)
@@ -31,11 +33,20 @@ pub fn make_schema(rs: &RSchema, via: SchemaVia, rng: &mut Rng) -> (Result<Schem
 			(txt.parse::<Schema>().map_err(|e| e.to_string()), Some(txt))
 		}
 		SchemaVia::Builder => (rs.to_schema_mut().freeze().map_err(|e| e.to_string()), None),
+		SchemaVia::EditedInPlace => {
+			let start = *rng.pick(&["\"long\"", "{\"type\":\"record\",\"name\":\"Before\",\"fields\":[{\"name\":\"a\",\"type\":\"int\"}]}", "[\"null\",\"string\"]"]);
+			let mut sm: serde_avro_fast::schema::SchemaMut = start.parse().expect("harness start schema");
+			if rng.chance(3, 4) {
+				let _ = sm.canonical_form_rabin_fingerprint();
+			}
+			*sm.nodes_mut() = rs.to_schema_mut().nodes().to_vec();
+			(sm.freeze().map_err(|e| e.to_string()), None)
+		}
 	}
 }
 
 pub fn pick_via(rng: &mut Rng) -> SchemaVia {
-	*rng.pick(&[SchemaVia::PlainText, SchemaVia::FancyText, SchemaVia::Builder])
+	*rng.pick(&[SchemaVia::PlainText, SchemaVia::FancyText, SchemaVia::FancyText, SchemaVia::Builder, SchemaVia::Builder, SchemaVia::EditedInPlace])
 }
 
 pub fn ser_datum(schema: &Schema, rs: &RSchema, v: &Val, p: &Pres) -> Result<Vec<u8>, String> {
